@@ -42,7 +42,9 @@ shutil.rmtree(bdir, ignore_errors=True)
 
 # 3. demo fails with the change, passes without
 flags = "-std=c++17 -g -fsanitize=address,undefined -fno-sanitize-recover=all -I Include"
-if "fsanitize=thread" in notes and "pthread" in notes:
+if os.environ.get("CONFIRM_FLAGS") == "asan":
+    pass
+elif os.environ.get("CONFIRM_FLAGS") == "tsan" or ("fsanitize=thread" in notes and "pthread" in notes):
     flags = "-std=c++17 -g -fsanitize=thread -I Include"
 extra = " -DQENTEM_SSE2=1 -msse2" if "QENTEM_SSE2" in notes else ""
 env = "ASAN_OPTIONS=detect_leaks=1 "
